@@ -2,24 +2,25 @@
   Helper lemmas for C10R, part 4: `optimize_type` on the merged field type, and `generate` end to end.
 -/
 import J2M.Proofs.LitRuleGen
+import J2M.Proofs.SplitWorklist
 namespace J2M.LitRule
 open J2M J2M.Strings
 
-/-- the loop body of the category split -/
-def splitStep (reg : StrRegistry) (s : Split) (item : Ty) : Split :=
-    let (item, s) := match item with
-      | .opt x => (x, { s with other := s.other ++ [Ty.null] })
-      | x => (x, s)
-    match item with
-    | .obj fs => { s with toMerge := s.toMerge ++ [fs] }
-    | .str => { s with strTypes := s.strTypes ++ [item] }
-    | .ser k => if reg.types.contains k then { s with strTypes := s.strTypes ++ [item] }
-                else { s with other := s.other ++ [item] }
-    | .list x => { s with lists := s.lists ++ [x] }
-    | .dict x => { s with dicts := s.dicts ++ [x] }
-    | x => { s with other := s.other ++ [x] }
+open J2M.SplitW (splitStep)
 
-theorem splitMembers_eq (reg : StrRegistry) (ts : List Ty) : splitMembers reg ts = ts.foldl (splitStep reg) {} := rfl
+/-- the member lists of this file (pseudo-types, then possibly `str` or a literal) hide no union -/
+theorem hidden_sers (ks : List String) (tl : List Ty) (htl : ∀ t ∈ tl, SplitW.hidden t = false) :
+    ∀ t ∈ ks.map Ty.ser ++ tl, SplitW.hidden t = false := by
+  intro t ht
+  rcases List.mem_append.mp ht with h | h
+  · obtain ⟨k, _, rfl⟩ := List.mem_map.mp h; rfl
+  · exact htl t h
+
+/-- the worklist split is the plain fold on such lists -/
+theorem splitMembers_eq (reg : StrRegistry) (ks : List String) (tl : List Ty)
+    (htl : ∀ t ∈ tl, SplitW.hidden t = false) :
+    splitMembers reg (ks.map .ser ++ tl) = (ks.map Ty.ser ++ tl).foldl (splitStep reg) {} :=
+  SplitW.splitMembers_eq_foldl (hidden_sers ks tl htl)
 
 theorem splitStep_ser (reg : StrRegistry) (s : Split) (k : String) (h : k ∈ reg.types) :
     splitStep reg s (.ser k) = { s with strTypes := s.strTypes ++ [.ser k] } := by
@@ -44,16 +45,18 @@ theorem foldl_splitStep_sers (reg : StrRegistry) : ∀ (ks : List String) (s : S
 
 theorem split_sers (reg : StrRegistry) (ks : List String) (h : ∀ k ∈ ks, k ∈ reg.types) :
     splitMembers reg (ks.map .ser) = { strTypes := ks.map .ser } := by
-  rw [splitMembers_eq, foldl_splitStep_sers reg ks _ h]; rfl
+  have := splitMembers_eq reg ks [] (by simp)
+  rw [List.append_nil] at this
+  rw [this, foldl_splitStep_sers reg ks _ h]; rfl
 
 theorem split_sers_str (reg : StrRegistry) (ks : List String) (h : ∀ k ∈ ks, k ∈ reg.types) :
     splitMembers reg (ks.map .ser ++ [.str]) = { strTypes := ks.map .ser ++ [.str] } := by
-  rw [splitMembers_eq, List.foldl_append, foldl_splitStep_sers reg ks _ h]; rfl
+  rw [splitMembers_eq reg ks [.str] (by simp [SplitW.hidden]), List.foldl_append, foldl_splitStep_sers reg ks _ h]; rfl
 
 theorem split_sers_lit (reg : StrRegistry) (ks : List String) (h : ∀ k ∈ ks, k ∈ reg.types) (o : Bool)
     (vs : List String) :
     splitMembers reg (ks.map .ser ++ [.lit o vs]) = { strTypes := ks.map .ser, other := [.lit o vs] } := by
-  rw [splitMembers_eq, List.foldl_append, foldl_splitStep_sers reg ks _ h]; rfl
+  rw [splitMembers_eq reg ks [.lit o vs] (by simp [SplitW.hidden]), List.foldl_append, foldl_splitStep_sers reg ks _ h]; rfl
 
 theorem optimize_str (cfg : GenCfg) (e : EqEnv) (m : Nat) : optimize cfg e (m + 1) .str = .ok .str := by
   simp [optimize]; rfl
